@@ -118,7 +118,7 @@ def make_transport_class():
             if self.ether is not None:
                 self.ether.transmit(self, frame)
                 return
-            on_air = frame.replace(HGI_ID, self.gwy_id, 1) if frame[7:16] == HGI_ID else frame
+            on_air = frame.replace(HGI_ID, self.gwy_id, 1) if (frame[7:16] == HGI_ID and self.gwy_id) else frame
             if not self.lose_echo(on_air):
                 self._loop.call_later(self.echo_delay, self.inject, on_air, "000")
             if self.responder is not None:
